@@ -118,6 +118,14 @@ def check_cfg(ctx, fx, cfg):
             inst = "%s in %s" % (kind, f["def"])
             ctx.require(not bad, "R15.2", inst + "@" + cfg, "a handle is built from something other than the handle it was derived from: operands %s" % bad, fn=f["def"], site=loc, detail={"operands_checked": checked})
     ctx.floor("R15.2", "handle-building sites (%s)" % cfg, n, 20)
+    # R15.4 self-stop / self-restart succeed whenever the forcing half can be upgraded: Ok is reported only for a request
+    # that was actually submitted, an error only if the upgrade or the submission failed
+    from props.c04 import check_submit_on_ok
+    for e in ("context::Context::<A>::stop", "context::Context::<A>::restart"):
+        if fx.fn(e) is not None:
+            check_submit_on_ok(ctx, fx, "R15.4", e, {"context::Context::<A>::stop", "context::Context::<A>::restart"})
+        else:
+            ctx.viol("R15.4", "exists:" + e, "%s not found" % e)
     # R15.3 birth site
     fc = fx.fn("environment::Environment::<A, R>::from_channel")
     if ctx.require(fc is not None, "R15.3", "from_channel@" + cfg, "Environment::from_channel not found"):
